@@ -587,7 +587,8 @@ def run_obligation(ob, seed, tier):
             if err is not None:
                 out["notes"].append(f"numeric cross-run error: {err}"[:400])
                 # an obligation declared numeric=True is decided by this run: an error in it is never a silent pass
-                if opts.get("numeric_required", opts.get("numeric") is True):
+                # (nor in a cell whose symbolic run was skipped with a "numeric-only" note)
+                if opts.get("numeric_required", opts.get("numeric") is True) or any(str(n).startswith("numeric-only") for n in out["notes"]):
                     inconclusive.append(f"numeric cross-run error: {err}"[:400])
             if fails:
                 reproduced.append({"label": fails[0][0], "how": "numeric-cross-run", "env": used,
